@@ -303,6 +303,17 @@ theorem del_world (crc : Bytes → Nat) (w : World) (n : Name) :
       | some i => right; exact ⟨v, rfl, rfl⟩
     · left; simp [hw]
 
+theorem flushStep_world (w : World) (v : Vpk) :
+    (flushStep w v).1 = w ∨ (v.tree.fits = true ∧
+      (flushStep w v).1 = { w with dirFile := some (encodeDir v.version v.tree v.footer) }) := by
+  unfold flushStep
+  by_cases hver : v.version > 1
+  · left; simp [hver]
+  · simp only [hver, if_false]
+    cases hf : v.tree.fits with
+    | false => left; simp
+    | true => right; exact ⟨rfl, by simp⟩
+
 theorem flush_world (crc : Bytes → Nat) (w : World) :
     (step crc w .flush).1 = w ∨ ∃ v, w.vpk = some v ∧ v.tree.fits = true ∧
       (step crc w .flush).1 = { w with dirFile := some (encodeDir v.version v.tree v.footer) } := by
@@ -312,13 +323,28 @@ theorem flush_world (crc : Bytes → Nat) (w : World) :
     simp only [step, hv]
     by_cases hw : v.mode.writable = true
     · simp only [hw, not_true_eq_false, if_false]
-      by_cases hver : v.version > 1
-      · left; simp [hver]
-      · simp only [hver, if_false]
-        cases hf : v.tree.fits with
-        | false => left; simp
-        | true => right; exact ⟨v, rfl, hf, by simp⟩
+      rcases flushStep_world w v with h | ⟨h1, h2⟩
+      · left; exact h
+      · right; exact ⟨v, rfl, h1, by rw [h2, hv]⟩
     · left; simp [hw]
+
+theorem exit_world (crc : Bytes → Nat) (w : World) (exc : Bool) :
+    (step crc w (.exit exc)).1 = w ∨ ∃ v, w.vpk = some v ∧ v.tree.fits = true ∧
+      (step crc w (.exit exc)).1 = { w with dirFile := some (encodeDir v.version v.tree v.footer) } := by
+  cases hv : w.vpk with
+  | none => left; simp [step, hv]
+  | some v =>
+    simp only [step, hv]
+    cases exc with
+    | true => left; simp
+    | false =>
+      simp only [Bool.false_eq_true, if_false]
+      by_cases hw : v.mode.writable = true
+      · simp only [hw, not_true_eq_false, if_false]
+        rcases flushStep_world w v with h | ⟨h1, h2⟩
+        · left; exact h
+        · right; exact ⟨v, rfl, h1, by rw [h2, hv]⟩
+      · left; simp [hw]
 
 theorem has_world (crc : Bytes → Nat) (w : World) (n : Name) : (step crc w (.has n)).1 = w := by
   cases hv : w.vpk with
@@ -615,6 +641,28 @@ theorem size_step (crc : Bytes → Nat) (hcrc : ∀ b, crc b < 4294967296) {w : 
         simp [flushOK, hv, this]
     refine ⟨hfl, ?_⟩
     rcases flush_world crc w with h | ⟨v, hv, hfit, h⟩
+    · rw [h]; exact hS
+    · rw [h]
+      obtain ⟨c1, c2, c3⟩ := hS.cur v hv
+      obtain ⟨hver, hwf, hval⟩ := R_handle hR v hv
+      refine ⟨hS.archs, hS.cur, ?_⟩
+      intro b l hb hdec
+      simp only [Option.some.injEq] at hb; subst hb
+      rw [hver, decodeDir_encodeDir v.tree v.footer hwf hfit] at hdec
+      injection hdec with hdec; subst hdec
+      exact ⟨Nat.le_trans (treeB_rawTree _) c1, c2, smallTree_raw hwf c3⟩
+  | exit exc =>
+    simp only [opCost, Nat.add_zero] at hB ⊢
+    have hfl : flushOK w (.exit exc) = true := by
+      cases hv : w.vpk with
+      | none => cases exc <;> simp [flushOK, hv]
+      | some v =>
+        obtain ⟨c1, c2, c3⟩ := hS.cur v hv
+        obtain ⟨hver, hwf, hval⟩ := R_handle hR v hv
+        have := fits_of hwf c3 hval c2 hS.archs c1 hB
+        cases exc <;> simp [flushOK, hv, this]
+    refine ⟨hfl, ?_⟩
+    rcases exit_world crc w exc with h | ⟨v, hv, hfit, h⟩
     · rw [h]; exact hS
     · rw [h]
       obtain ⟨c1, c2, c3⟩ := hS.cur v hv
